@@ -922,7 +922,7 @@ class _ClientGen:
         if k == "mutate":
             j = r.choice(g)
             self._retire(j)
-            how = r.choice(["node_attr", "node_attr", "node_attr_new", "node_attr_del", "edge_attr", "del_edge", "add_edge", "del_node", "graph_attr", "clear_all"])
+            how = r.choice(["node_attr", "node_attr", "node_attr_new", "node_attr_del", "edge_attr", "edge_attr", "edge_attr", "del_edge", "add_edge", "del_node", "graph_attr", "clear_all"])
             return self._add({"op": "mutate", "reg": j, "how": how, "x": r.randrange(1000)})
         if k == "drop":
             j = r.choice(g)
